@@ -39,6 +39,7 @@ pub struct MtOut {
     pub confirms: u64,
     /// functions in which a CAS succeeded on a list word that had been changed and changed back (ABA)
     pub aba: Vec<String>,
+    pub mark_wiped: Vec<String>,
     pub spurious_fired: u64,
     pub calls: u64,
     pub trace_hash: u64,
@@ -495,6 +496,7 @@ pub fn run_spec(spec: &MtSpec, record_events: bool) -> MtOut {
     out.parks = st.parks;
     out.confirms = st.confirms;
     out.aba = st.aba.clone();
+    out.mark_wiped = st.mark_wiped.clone();
     out.spurious_fired = st.spurious_fired;
     out.calls = st.calls_done;
     out.trace_hash = st.trace_hash;
